@@ -183,7 +183,12 @@ pub(super) mod udp {
         type Error = anyhow::Error;
 
         fn decode(&mut self, src: &mut BytesMut) -> Result<Option<Self::Item>, Self::Error> {
-            if !src.is_empty() {
+            // address, length, CRLF, payload: wait until the whole datagram has arrived
+            let Some(addr_len) = address::try_decode_at(src, 0)? else {
+                return Ok(None);
+            };
+            let header_len = addr_len + 2 + trojan::CR_LF.len();
+            if src.remaining() >= header_len && src.remaining() >= header_len + u16::from_be_bytes([src[addr_len], src[addr_len + 1]]) as usize {
                 let addr = address::decode(src)?;
                 let len = src.get_u16();
                 src.advance(trojan::CR_LF.len());
